@@ -24,7 +24,8 @@ func init() {
 			"R5 an error that was not received from a member is returned only on the `<-ctx.Done()` arm. " +
 			"R4b blobReader.Close cancels on every path; every caller of runReadWithCancel cancels, hands the cancel to the returned reader, or returns it; R6 (as C15.R6). " +
 			"R7 inside a read helper's callback every member call uses the context handed to the callback. " +
-			"R1b the channel the member goroutines send their answers on is unbuffered.",
+			"R1b the channel the member goroutines send their answers on is unbuffered. " +
+			"R8 every function of ociunify that returns a cancel function returns a non-nil one on every return.",
 		NotDecided: "wall-clock behaviour of slow members and actual goroutine scheduling are not decided; the rules decide the shape that makes every answer order and cancellation point leak-free.",
 		Technique:  "static analysis: goroutine/channel shape on SSA (select arms, deferred close), typestate of received results, dominance",
 	})
@@ -60,6 +61,7 @@ func runC16(c *core.Ctx) {
 	readerCloseAlwaysCancels(c, "C16.R4")
 	memberCallsUseMemberContext(c, "C16.R7")
 	resultChannelUnbuffered(c, "C16.R1")
+	cancelFuncNeverNil(c, "C16.R8")
 	c16Both(c)
 }
 
